@@ -181,17 +181,39 @@ func (s *SimOps) bin(f func(a, b *variants.Variant) (*variants.Variant, error), 
 	return f(a, b)
 }
 
-func (s *SimOps) Add(a, b *variants.Variant) (*variants.Variant, error) { return s.bin(s.Inner.Add, a, b) }
-func (s *SimOps) Sub(a, b *variants.Variant) (*variants.Variant, error) { return s.bin(s.Inner.Sub, a, b) }
-func (s *SimOps) Mul(a, b *variants.Variant) (*variants.Variant, error) { return s.bin(s.Inner.Mul, a, b) }
-func (s *SimOps) Div(a, b *variants.Variant) (*variants.Variant, error) { return s.bin(s.Inner.Div, a, b) }
-func (s *SimOps) Mod(a, b *variants.Variant) (*variants.Variant, error) { return s.bin(s.Inner.Mod, a, b) }
-func (s *SimOps) Pow(a, b *variants.Variant) (*variants.Variant, error) { return s.bin(s.Inner.Pow, a, b) }
-func (s *SimOps) And(a, b *variants.Variant) (*variants.Variant, error) { return s.bin(s.Inner.And, a, b) }
-func (s *SimOps) Or(a, b *variants.Variant) (*variants.Variant, error)  { return s.bin(s.Inner.Or, a, b) }
-func (s *SimOps) Xor(a, b *variants.Variant) (*variants.Variant, error) { return s.bin(s.Inner.Xor, a, b) }
-func (s *SimOps) Lsh(a, b *variants.Variant) (*variants.Variant, error) { return s.bin(s.Inner.Lsh, a, b) }
-func (s *SimOps) Rsh(a, b *variants.Variant) (*variants.Variant, error) { return s.bin(s.Inner.Rsh, a, b) }
+func (s *SimOps) Add(a, b *variants.Variant) (*variants.Variant, error) {
+	return s.bin(s.Inner.Add, a, b)
+}
+func (s *SimOps) Sub(a, b *variants.Variant) (*variants.Variant, error) {
+	return s.bin(s.Inner.Sub, a, b)
+}
+func (s *SimOps) Mul(a, b *variants.Variant) (*variants.Variant, error) {
+	return s.bin(s.Inner.Mul, a, b)
+}
+func (s *SimOps) Div(a, b *variants.Variant) (*variants.Variant, error) {
+	return s.bin(s.Inner.Div, a, b)
+}
+func (s *SimOps) Mod(a, b *variants.Variant) (*variants.Variant, error) {
+	return s.bin(s.Inner.Mod, a, b)
+}
+func (s *SimOps) Pow(a, b *variants.Variant) (*variants.Variant, error) {
+	return s.bin(s.Inner.Pow, a, b)
+}
+func (s *SimOps) And(a, b *variants.Variant) (*variants.Variant, error) {
+	return s.bin(s.Inner.And, a, b)
+}
+func (s *SimOps) Or(a, b *variants.Variant) (*variants.Variant, error) {
+	return s.bin(s.Inner.Or, a, b)
+}
+func (s *SimOps) Xor(a, b *variants.Variant) (*variants.Variant, error) {
+	return s.bin(s.Inner.Xor, a, b)
+}
+func (s *SimOps) Lsh(a, b *variants.Variant) (*variants.Variant, error) {
+	return s.bin(s.Inner.Lsh, a, b)
+}
+func (s *SimOps) Rsh(a, b *variants.Variant) (*variants.Variant, error) {
+	return s.bin(s.Inner.Rsh, a, b)
+}
 func (s *SimOps) Not(a *variants.Variant) (*variants.Variant, error) {
 	if s.hit() {
 		return nil, ErrInjected
@@ -222,7 +244,9 @@ func (s *SimOps) MoreEqual(a, b *variants.Variant) (*variants.Variant, error) {
 func (s *SimOps) LessEqual(a, b *variants.Variant) (*variants.Variant, error) {
 	return s.bin(s.Inner.LessEqual, a, b)
 }
-func (s *SimOps) In(a, b *variants.Variant) (*variants.Variant, error) { return s.bin(s.Inner.In, a, b) }
+func (s *SimOps) In(a, b *variants.Variant) (*variants.Variant, error) {
+	return s.bin(s.Inner.In, a, b)
+}
 func (s *SimOps) GetElement(a, b *variants.Variant) (*variants.Variant, error) {
 	return s.bin(s.Inner.GetElement, a, b)
 }
